@@ -203,6 +203,7 @@ INJ_PROPS = ["C01", "C03", "C04", "C05", "C09", "C12", "C17"]
 class Adapter(EnvAdapter):
     name = "SlidingTile"
     props = ("C01", "C03", "C04", "C05", "C08", "C09", "C10", "C11", "C12", "C17")
+    gen_heavy = {'n2_dense': (60, 400), 'n3_dense': (40, 300), 'n4_dense_k8': (30, 200)}
 
     def configs(self, tier):
         # time-limit sweep ("for every value passed", C11): one surviving episode per value, no probes
